@@ -107,18 +107,18 @@ structure Routed where
   values : List Int
   bipartite : Bool
 
-/-- `get_adjacency_values(input_matrix, force_bipartite, values, values_row, values_col)` (no `which`) -/
-def adjacencyValues (c : Csr Rat) (forceBip : Bool) (v r cc : Seeds) : Except PyErr Routed := do
-  -- `check_format`: a matrix without stored entry is refused
-  if c.indices.size == 0 then throw .valueError
-  let given (s : Seeds) : Bool := match s with | .none => false | _ => true
-  let bip := forceBip || given r || given cc || c.nRow != c.nCol
-  if bip then
-    let vals ← if given v then stackValues c.nRow c.nCol v .none else stackValues c.nRow c.nCol r cc
-    pure ⟨blockCsr c, vals, true⟩
-  else
-    let vals ← getValues c.nRow v
-    pure ⟨c, vals, false⟩
+def Seeds.given : Seeds → Bool
+  | .none => false
+  | _ => true
+
+/-- `get_adjacency_values(input_matrix, force_bipartite, values, values_row, values_col)` (no `which`);
+    `check_format` refuses a matrix without stored entry -/
+def adjacencyValues (c : Csr Rat) (forceBip : Bool) (v r cc : Seeds) : Except PyErr Routed :=
+  if c.indices.size == 0 then .error .valueError
+  else if forceBip || r.given || cc.given || c.nRow != c.nCol then
+    (if v.given then stackValues c.nRow c.nCol v .none else stackValues c.nRow c.nCol r cc).map
+      fun vals => ⟨blockCsr c, vals, true⟩
+  else (getValues c.nRow v).map fun vals => ⟨c, vals, false⟩
 
 /-! ### probabilities of `Propagation` -/
 namespace Propagation
